@@ -643,8 +643,15 @@ def judge1(prog, obs):
     node_problems(model.graph, imports, "main", probs)
     for f in model.functions:
         fi = {("" if o.domain == "ai.onnx" else o.domain): o.version for o in f.opset_import}
-        if fi.get("") != imports.get(""):
-            probs.append(f"function {f.name} imports {sorted(fi.items())} but the model {sorted(imports.items())}")
+        fdoms = [("" if o.domain == "ai.onnx" else o.domain) for o in f.opset_import]
+        if len(set(fdoms)) != len(fdoms):
+            probs.append(f"function {f.name} imports a domain twice: {sorted(fi.items())}")
+        # one version per domain holds across the model AND its functions
+        for d_, v_ in sorted(fi.items()):
+            if d_ in imports and imports[d_] != v_:
+                probs.append(f"function {f.name} imports {d_ or 'ai.onnx'}:{v_} but the model imports {d_ or 'ai.onnx'}:{imports[d_]}")
+        if "" not in fi:
+            probs.append(f"function {f.name} does not import the default domain")
         node_problems(f.node, fi, f"function {f.name}", probs)
     if probs:
         return ("node-invalid-at-import", probs[0])
@@ -705,7 +712,7 @@ def classify(stage, prog, msg=""):
     if bad_attr and "inline-in-body-below-import" in feats and feats <= body_family:
         return "adapt:body-own-opsets:inline-in-body"
     if stage in ("build-raises-InferenceError", "construct-raises-InferenceError") and "expect a" in msg \
-            and feats == {"ref-attr-converted"}:
+            and "ref-attr-converted" in feats and feats <= (body_family | {"ref-attr-converted", "inline-converted"}):
         return "adapt:ref-attribute-in-function-body:build-fails"
     if bad_attr and feats == {"inline-below-14-target-14"}:
         return "adapt-inline:source-below-14:not-converted"
@@ -943,6 +950,21 @@ def targeted_programs():
                              "then": {"nodes": [st("t", "rmean", 17, ["x"], axis=1)], "out": "t"},
                              "else": {"nodes": [st("e", "neg", 17, ["x"])], "out": "e"}},
                             st("d", "add", 17, ["f", "i"])], "outs": ["d"]})
+    # a non-default domain at a lower version inside a function body than elsewhere in the model
+    for inner, imv, outer, omv in (("ml_scaler", 3, "ml_label", 4), ("ml_label", 3, "ml_label", 4),
+                                   ("ml_binarizer", 3, "ml_label", 5), ("ml_label", 4, "ml_scaler", 3)):
+        P.append({"nodes": [{"id": "f", "op": "func", "name": f"fml_{inner}{imv}_{outer}{omv}", "params": ["p"], "args": ["x"],
+                             "body": {"nodes": [{"id": "q", "op": inner, "mv": imv, "dv": 17, "args": ["p"]}], "out": "q"}},
+                            {"id": "m", "op": outer, "mv": omv, "dv": 17, "args": ["y"]},
+                            st("d", "add", 17, ["f", "m"])], "outs": ["d", "f"]})
+    P.append({"nodes": [{"id": "f", "op": "func", "name": "fml_in_if", "params": ["p"], "args": ["x"],
+                         "body": {"nodes": [{"id": "i", "op": "if", "mv": 17, "cond": "t",
+                                             "then": {"nodes": [{"id": "q", "op": "ml_label", "mv": 3, "dv": 17, "args": ["p"]}], "out": "q"},
+                                             "else": {"nodes": [st("e", "neg", 17, ["p"])], "out": "e"}}], "out": "i"}},
+                        {"id": "i2", "op": "if", "mv": 19, "cond": "c",
+                         "then": {"nodes": [{"id": "m", "op": "ml_label", "mv": 5, "dv": 19, "args": ["y"]}], "out": "m"},
+                         "else": {"nodes": [st("e2", "abs", 17, ["y"])], "out": "e2"}},
+                        st("d", "add", 17, ["f", "i2"])], "outs": ["d", "f"]})
     # the same function application built twice, in models with different maxima
     P.append({"nodes": [{"id": "f", "op": "func", "name": "ftwice", "params": ["p"], "args": ["x"],
                          "body": {"nodes": [st("q", "rmean", 17, ["p"], axis=0), st("r", "rmax", 18, ["q"], axis=1)], "out": "r"}},
